@@ -18,6 +18,8 @@ from vcheck.core import Task, Violation
 ID = 'C11'
 LEVEL = 'exploration'
 BUDGET = {'quick': 45, 'thorough': 420}
+# deterministic sub-checks repeated in a `python -O` child (core.optimized_child)
+OPT_SUBS = ('mac/family', 'int/odd', 'badchar/family', 'confusable/family', 'ipv4/family', 'ipv6/family', 'cidr/family', 'int/range')
 RULE = ('Strings from address grammars - dotted quads with 1..5 parts over a '
         '34-spelling part alphabet (octets -1..300, range ends of the 1..3 '
         'part forms, leading zeros, hex/octal, signs, non-ASCII digits); IPv6 '
